@@ -4,7 +4,7 @@
     example_* theorems at the end (Witness.v). *)
 From Coq Require Import Ascii String List Bool ZArith QArith Qabs Qminmax Permutation.
 From PTBase Require Import Exn PyStr.
-From P Require Import FromGeo Arith Lists NamesAgree Volume Area ConnGeom ConnNoDup Decode Witness.
+From P Require Import FromGeo Arith Lists NamesAgree Volume Area ConnGeom ConnNoDup Decode Witness Centre.
 Import ListNotations.
 Open Scope Q_scope.
 
@@ -156,6 +156,44 @@ Theorem total_rock_volume_from_nodes : forall g,
 Proof. exact total_volume_from_nodes_lemma. Qed.
 Print Assumptions total_rock_volume_from_nodes.
 
+(** ** block centres (t2block.centre) and the atmosphere blocks *)
+Theorem block_centre_formula : forall g bm names bl,
+  wf g -> block_name_list g = Ok names -> NoDup (map (apply_map bm) names) ->
+  fromgeo_blocks g bm = Ok bl ->
+  Forall (fun b => batm b = false ->
+            exists i l c z, nth_error (layers g) (S i) = Some l /\ In c (columns g) /\ lbot l < csurf c /\
+                            bname b = block_name (convention g) (lname l) (cname c) bm /\
+                            bcentre b = Some (ccx c, ccy c, z) /\ z == zcentre l c) bl.
+Proof. exact block_centres_lemma. Qed.
+Print Assumptions block_centre_formula.
+
+Theorem block_centre_elevation_cases : forall i l c,
+  (ltop l < csurf c -> zcentre l c == lcen l) /\
+  (csurf c <= ltop l -> block_top i l c == csurf c /\ zcentre l c == (lbot l + block_top i l c) / 2).
+Proof. exact zcentre_cases_lemma. Qed.
+Print Assumptions block_centre_elevation_cases.
+
+Theorem truncated_block_centre_inside_block : forall i l c,
+  lbot l < csurf c -> csurf c <= ltop l -> lbot l < zcentre l c /\ zcentre l c < block_top i l c.
+Proof. exact zcentre_inside_lemma. Qed.
+Print Assumptions truncated_block_centre_inside_block.
+
+Theorem atmosphere_blocks_by_type : forall g bm names bl,
+  wf g -> block_name_list g = Ok names -> NoDup (map (apply_map bm) names) ->
+  fromgeo_blocks g bm = Ok bl ->
+  exists l0 ls, layers g = l0 :: ls /\
+  filter batm bl = firstn (length (atm_names g)) bl /\
+  map bvol (filter batm bl) = map (fun _ => Some (atm_vol g)) (atm_names g) /\
+  (atm_type g = 0%nat ->
+     map bname (filter batm bl) = [block_name (convention g) (lname l0) (atm_colname (convention g)) bm] /\
+     map bcentre (filter batm bl) = [None]) /\
+  (atm_type g = 1%nat ->
+     map bname (filter batm bl) = map (fun c => block_name (convention g) (lname l0) (cname c) bm) (columns g) /\
+     map bcentre (filter batm bl) = map (fun c => Some (ccx c, ccy c, lcen l0)) (columns g)) /\
+  (atm_type g = 2%nat -> filter batm bl = []).
+Proof. exact atm_blocks_lemma. Qed.
+Print Assumptions atmosphere_blocks_by_type.
+
 (** ** connections *)
 Theorem connections_are_vertical_or_horizontal : forall g bm names cs,
   wf g -> layers_wf g -> edges_wf g ->
@@ -276,3 +314,14 @@ Theorem example_other_atmosphere_types :
     length bl = 8%nat /\ length cs = 10%nat).
 Proof. exact (conj ex_atm1 ex_atm2). Qed.
 Print Assumptions example_other_atmosphere_types.
+
+Theorem example_block_centres :
+  (exists bl, fromgeo_blocks (g_ex 0) bm_ex = Ok bl /\
+    map bcentre bl = [None; Some (1 # 2, 1 # 2, -5); Some (3 # 2, 1 # 2, -7);
+                      Some (1 # 2, 1 # 2, -15); Some (3 # 2, 1 # 2, -15); Some (3, 1 # 2, -16);
+                      Some (1 # 2, 1 # 2, -25); Some (3 # 2, 1 # 2, -25); Some (3, 1 # 2, -25)]) /\
+  (exists bl, fromgeo_blocks (g_ex 1) bm_ex = Ok bl /\
+    map bcentre (filter batm bl) = [Some (1 # 2, 1 # 2, 0); Some (3 # 2, 1 # 2, 0); Some (3, 1 # 2, 0)] /\
+    map bvol (filter batm bl) = [Some (atm_vol (g_ex 1)); Some (atm_vol (g_ex 1)); Some (atm_vol (g_ex 1))]).
+Proof. exact ex_centres. Qed.
+Print Assumptions example_block_centres.
